@@ -111,9 +111,17 @@ fn x_truncation() {
     let mut files: Vec<(String, Vec<u8>, usize)> = Vec::new();
     for i in 0..n {
         let s = rand_sprite(&mut r, &g);
-        let o = EncOpts { trailing: (i % 3) * 5, ..EncOpts::default() };
+        // vary what the file ends with: a chunk whose payload is fully decoded, an ignorable chunk (never
+        // decoded), chunk padding (never decoded), a redundant legacy palette after the new one
+        let o = match i % 5 {
+            0 => EncOpts { trailing: 5, ..EncOpts::default() },
+            1 => EncOpts { ignorable_after: vec![usize::MAX], ignorable_kind: [0x2006u16, 0x2016, 0x2017][(i / 5) % 3], ..EncOpts::default() },
+            2 => EncOpts { chunk_padding: 1 + (i / 5) % 7, ..EncOpts::default() },
+            3 => EncOpts { legacy_palette: if i % 2 == 0 { 4 } else { 0x11 }, legacy_first: false, ..EncOpts::default() },
+            _ => EncOpts::default(),
+        };
         let (b, end) = encode_with(&s, &o);
-        files.push((format!("generated #{}", i), b, end));
+        files.push((format!("generated #{} (ending variant {})", i, i % 5), b, end));
     }
     let dir = std::path::Path::new(env!("CARGO_MANIFEST_DIR")).join("tests/data");
     let mut corpus: Vec<_> = std::fs::read_dir(dir).unwrap().flatten().map(|e| e.path()).filter(|p| p.extension().map_or(false, |x| x == "aseprite")).collect();
